@@ -483,3 +483,11 @@ Definition v2_reader (body : bytes) : sreader :=
 (* l' is l, or a prefix of l followed by a panic: nothing different is ever handed out *)
 Definition agree_until_panic (l' l : list robs) : Prop :=
   l' = l \/ exists k, l' = firstn k l ++ [OPanic].
+
+(* the v2 validator over the block region alone: AddChunk for every chunk (stop at the
+   first refusal), then Validate *)
+Fixpoint vv_run (bs : nat) (s : v2v) (chunks : list bytes) : bool :=
+  match chunks with
+  | [] => vv_validate bs s
+  | c :: more => let '(s', ok) := vv_add bs s c in if ok then vv_run bs s' more else false
+  end.
